@@ -926,6 +926,7 @@ impl ChessBoard {
     pub unsafe fn make_move_mut_unchecked(&mut self, next_move: &BoardMove) -> &mut Self {
         use File::*;
 
+        let is_capture = next_move.is_capture_on_board(self);
         match next_move {
             BoardMove::MovePiece(m) => {
                 self.move_piece(m).clear_square_if_en_passant_capture(m);
@@ -976,7 +977,7 @@ impl ChessBoard {
 
         let opposite_side = !self.side_to_move;
         self.update_move_number()
-            .update_moves_since_capture(next_move)
+            .update_moves_since_capture(next_move, is_capture)
             .update_castling_rights(next_move)
             .set_side_to_move(opposite_side)
             .update_en_passant(next_move)
@@ -1247,10 +1248,10 @@ impl ChessBoard {
         self
     }
 
-    fn update_moves_since_capture(&mut self, last_move: &BoardMove) -> &mut Self {
+    fn update_moves_since_capture(&mut self, last_move: &BoardMove, is_capture: bool) -> &mut Self {
         match last_move {
             BoardMove::MovePiece(m) => {
-                if (m.get_piece_type() == Pawn) | m.is_capture_on_board(self) {
+                if (m.get_piece_type() == Pawn) | is_capture {
                     self.moves_since_capture_or_pawn_move = 0;
                 } else {
                     self.moves_since_capture_or_pawn_move += 1;
